@@ -103,6 +103,19 @@ func StrSz(lo, hi int64) Ty {
 	}
 	return Ty{K: "strsz", Lo: lo, Hi: hi}
 }
+
+// StrRaw is the call NewStringType(NewIntegerType(lo, hi), "") with the bounds AS GIVEN (lo may be negative): what the constructor makes of
+// them is its business.  The term of the type it denotes is CanonStr (a length is never negative: lo is clamped to 0; String[0,max] is String).
+func StrRaw(lo, hi int64) Ty { return Ty{K: "strraw", Lo: lo, Hi: hi} }
+
+// CanonStr: the constructor-normal String term a (strraw ..) term denotes.
+func CanonStr(t Ty) Ty {
+	lo := t.Lo
+	if lo < 0 {
+		lo = 0
+	}
+	return StrSz(lo, t.Hi)
+}
 func StrVal(s string) Ty            { return Ty{K: "strval", S: []string{s}} }
 func Enum(ci bool, vs ...string) Ty { return Ty{K: "enum", CI: ci, S: vs} }
 
@@ -256,7 +269,7 @@ func (t Ty) Sexp() sx.Sexp {
 		return sx.A(t.K)
 	}
 	switch t.K {
-	case "int", "tspan", "strsz", "coll":
+	case "int", "tspan", "strsz", "strraw", "coll":
 		return sx.T(t.K, sx.Int(t.Lo), sx.Int(t.Hi))
 	case "tstamp":
 		return sx.T("tstamp", sx.Int(t.Lo), sx.Int(t.NLo), sx.Int(t.Hi), sx.Int(t.NHi))
@@ -468,7 +481,7 @@ func ParseTy(e sx.Sexp) (Ty, error) {
 	a := e.Args()
 	var err error
 	switch tag {
-	case "int", "tspan", "strsz", "coll":
+	case "int", "tspan", "strsz", "strraw", "coll":
 		if err = arity(e, 2); err != nil {
 			return Ty{}, err
 		}
@@ -771,6 +784,9 @@ func StripAlias(t Ty) Ty {
 	}
 	if t.K == "enumraw" {
 		return CanonEnum(t)
+	}
+	if t.K == "strraw" {
+		return CanonStr(t)
 	}
 	r := t
 	if len(t.Ts) > 0 {
